@@ -471,6 +471,7 @@ def u8_cases(rng, thorough):
         for b1 in range(0xC0, 0x100):
             for b2 in BOUND_BYTES:
                 blocks.append("%02x%02x 2 *" % (b1, b2))
+    blocks = [b for k in range(vf.JOBS) for b in blocks[k::vf.JOBS]]
     lines = ["e44141", "f18080", "e480", "f180", "f0908080", "f48fbfbf", "f4908080", "eda080", "c080", "c3"]
     for s in boundary_wellformed():
         lines.append(hexs(s))
@@ -522,14 +523,17 @@ def pick_cap(rng, bs):
 def idna_cases(rng, thorough):
     blocks = []
     step = 4096
-    for lo in range(0, 0x110000, step):
-        blocks.append("%d %d 32 - -" % (lo, lo + step))                  # every scalar value alone
-    stride = 1 if thorough else 8
+
+    def dense(lo):     # ranges holding every boundary of the encodings and of the dot/surrogate tests
+        return lo < 0x4000 or 0xD000 <= lo < 0x11000 or 0x1F000 <= lo < 0x20000 or lo >= 0x10F000
     for i, lo in enumerate(range(0, 0x110000, step)):
-        if i % stride == 0:
+        if thorough or dense(lo) or i % 4 == 1:
+            blocks.append("%d %d 32 - -" % (lo, lo + step))              # the scalar value alone
+        if thorough or i % 16 == 0 or lo >= 0x10F000:
             blocks.append("%d %d 64 61 2d62" % (lo, lo + step))         # "a" <scalar> "-b"
             blocks.append("%d %d 7 - -" % (lo, lo + step))               # destination too small for most
             blocks.append("%d %d 40 c3a9 2ee4b8ad" % (lo, lo + step))   # "é" <scalar> ".中"
+    blocks = [b for k in range(vf.JOBS) for b in blocks[k::vf.JOBS]]     # spread the slow ones over the shards
     lines = []
     corpus = os.path.join(vf.VERIF, "corpus", "C18", "idna.txt")
     if os.path.exists(corpus):
@@ -680,7 +684,8 @@ def run(chk, lib, thorough):
     both("uv__idna_toascii = Model/Idna.v idna_toascii (all scalar values, blocks)", "idnablk", blocks, None,
          refine=refine_idna)
     a = both("uv__idna_toascii = Model/Idna.v idna_toascii", "idna", lines, mon_idna)
-    chk.cov["idna_scalars_enumerated"] = 0x110000 - 0x800
+    chk.cov["idna_scalars_enumerated_alone"] = sum(
+        int(c.split()[1]) - int(c.split()[0]) for c in blocks if c.endswith(" 32 - -"))
     chk.cov["idna_e2big_seen"] = sum(1 for x in a if x.startswith("-7 "))
     chk.cov["idna_converted_seen"] = sum(1 for x in a if " 786e2d2d" in x)
     chk.sample({"idna_case": lines[-1][:120], "impl": a[-1][:120] if a else None})
@@ -721,8 +726,9 @@ def run(chk, lib, thorough):
 
 RULE = ("UTF-8: every byte sequence of length 1..3 (each length separately, because the decoder switches on the "
         "distance to the end), 4-byte sequences over 31 boundary bytes, every truncation/extension of every "
-        "well-formed boundary sequence, random strings; IDNA: every Unicode scalar value alone (hashed blocks, model "
-        "vs. library) and embedded in context for a sample, explicit sampled scalars and random/damaged host names "
+        "well-formed boundary sequence, random strings; IDNA: Unicode scalar values alone in hashed blocks, model vs. "
+        "library (thorough: every one; quick: every one below U+4000, in U+D000..U+10FFF, U+1F000..U+1FFFF and above "
+        "U+10F000, a quarter of the other 4096-blocks) and embedded in context for a sample, explicit sampled scalars and random/damaged host names "
         "with random destination sizes three-way against a Python RFC 3492 reference, labels around the 32-bit "
         "overflow bound; UTF-16: every single unit, all pairs of boundary units with every destination size, random "
         "sequences, both counted and NUL-terminated; WTF-8 decoding of all 1-2 byte strings and boundary 3-4 byte "
